@@ -45,12 +45,20 @@ theorem hide_eq (a : AVP) (secret : Bytes) (rv : UInt32) (lp ap : Bytes)
 
 variable (hmd5 : ∀ x, (md5 x).length = 16)
 
+/-- what the decoder makes of an AVP's own value octets, as `reveal` reports it -/
+def ownDecode (a : AVP) : Except Fault (Except DErr AVP) :=
+  match (decodeAvp a.attr : M Bytes DErr AVP) a.value with
+  | .ok r _ => .ok (.ok r)
+  | .err e _ => .ok (.error e)
+  | .fault f => .error f
+
 include hmd5 in
-/-- revealing what `hide` produced, with the same secret and random vector, returns the AVP — for every
-    secret (the empty one included), random vector, length padding and alignment padding -/
-theorem reveal_hide (a : AVP) (secret : Bytes) (rv : UInt32) (lp ap : Bytes)
-    (hw : a.wf = true) (hh : a.isHidden = false) (hl : 6 + a.value.length ≤ 1023) (hap : ap.length = 16) :
-    ∃ h, hide md5 a secret rv lp ap = .ok h ∧ reveal md5 h secret rv = .ok (.ok a) := by
+/-- revealing what `hide` produced, with the same secret and random vector, yields exactly what the decoder makes of
+    the AVP's own value octets — for **every** non-hidden AVP within the size limit, well-formed or not, every secret,
+    random vector, length padding and alignment padding -/
+theorem reveal_hide_general (a : AVP) (secret : Bytes) (rv : UInt32) (lp ap : Bytes)
+    (hh : a.isHidden = false) (hl : 6 + a.value.length ≤ 1023) (hap : ap.length = 16) :
+    ∃ h, hide md5 a secret rv lp ap = .ok h ∧ reveal md5 h secret rv = ownDecode a := by
   refine ⟨_, hide_eq md5 a secret rv lp ap hh hl, ?_⟩
   have hmod := hidePlain_length_mod a lp ap hap
   have hplen : (hidePlain a lp ap).length = 16 * ((hidePlain a lp ap).length / 16) := by omega
@@ -89,8 +97,20 @@ theorem reveal_hide (a : AVP) (secret : Bytes) (rv : UInt32) (lp ap : Bytes)
   simp only []
   rw [if_neg (by simp)]
   have e6 : 6 + a.value.length - 6 = a.value.length := by omega
-  rw [e6, inSub_ok _ (by simp), List.take_left' rfl, payload_roundtrip a hw hh]
-  rfl
+  rw [e6, inSub_ok _ (by simp), List.take_left' rfl]
+  unfold ownDecode
+  cases (decodeAvp a.attr : M Bytes DErr AVP) a.value <;> rfl
+
+
+include hmd5 in
+/-- revealing what `hide` produced, with the same secret and random vector, returns the AVP — for every
+    secret (the empty one included), random vector, length padding and alignment padding -/
+theorem reveal_hide (a : AVP) (secret : Bytes) (rv : UInt32) (lp ap : Bytes)
+    (hw : a.wf = true) (hh : a.isHidden = false) (hl : 6 + a.value.length ≤ 1023) (hap : ap.length = 16) :
+    ∃ h, hide md5 a secret rv lp ap = .ok h ∧ reveal md5 h secret rv = .ok (.ok a) := by
+  obtain ⟨h, h1, h2⟩ := reveal_hide_general md5 hmd5 a secret rv lp ap hh hl hap
+  refine ⟨h, h1, ?_⟩
+  rw [h2, ownDecode, payload_roundtrip a hw hh]
 
 end
 end Rl2tp
